@@ -400,6 +400,9 @@ def _inline_exception_tuples(tree):
         for n in ast.walk(tree):
             if isinstance(n, ast.For) and isinstance(n.iter, ast.Name) and n.iter.id in lits and nst.get(n.iter.id, 0) == 1:
                 n.iter = ast.copy_location(ast.Tuple(elts=[_copy.deepcopy(e) for e in lits[n.iter.id].elts], ctx=ast.Load()), n.iter)
+            # `x in NAMES` / `x not in NAMES`: membership in the literal collection
+            if isinstance(n, ast.Compare) and len(n.ops) == 1 and isinstance(n.ops[0], (ast.In, ast.NotIn)) and isinstance(n.comparators[0], ast.Name) and n.comparators[0].id in lits and nst.get(n.comparators[0].id, 0) == 1:
+                n.comparators[0] = ast.copy_location(ast.List(elts=[_copy.deepcopy(e) for e in lits[n.comparators[0].id].elts], ctx=ast.Load()), n.comparators[0])
     ast.fix_missing_locations(tree)
 
 
@@ -1738,6 +1741,112 @@ def _inline_local_closures(trees):
         ast.fix_missing_locations(t)
 
 
+def _unroll_record_objects(trees):
+    """Local record objects.  For a NamedTuple / dataclass / namedtuple class C of the package with fields (f1, ..., fk):
+    `r = C(e1, ..., ek)` (positional or keyword), with r bound once in the function and used only as `r.fi`, is
+    `r__f1 = e1; ...; r__fk = ek` with every `r.fi` read as `r__fi`.  A `for r in (C(..), C(..)): BODY` over a literal
+    tuple of such constructor calls (at most 4, a short body without break / continue) is unrolled first."""
+    import copy as _copy
+
+    fields = {}
+    for t in trees:
+        for c in t.body:
+            if isinstance(c, ast.ClassDef):
+                is_nt = any((isinstance(b, ast.Name) and b.id == "NamedTuple") or (isinstance(b, ast.Attribute) and b.attr == "NamedTuple") for b in c.bases)
+                is_dc = any((isinstance(d, ast.Name) and d.id == "dataclass") or (isinstance(d, ast.Attribute) and d.attr == "dataclass") or (isinstance(d, ast.Call) and ((isinstance(d.func, ast.Name) and d.func.id == "dataclass") or (isinstance(d.func, ast.Attribute) and d.func.attr == "dataclass"))) for d in c.decorator_list)
+                if (is_nt or is_dc) and not any(isinstance(s, (ast.FunctionDef, ast.AsyncFunctionDef)) for s in c.body):
+                    fs = [s.target.id for s in c.body if isinstance(s, ast.AnnAssign) and isinstance(s.target, ast.Name)]
+                    if fs:
+                        fields.setdefault(c.name, []).append(fs)
+            elif isinstance(c, ast.Assign) and len(c.targets) == 1 and isinstance(c.targets[0], ast.Name) and isinstance(c.value, ast.Call) and ((isinstance(c.value.func, ast.Name) and c.value.func.id == "namedtuple") or (isinstance(c.value.func, ast.Attribute) and c.value.func.attr == "namedtuple")) and len(c.value.args) >= 2:
+                a1 = c.value.args[1]
+                fs = None
+                if isinstance(a1, (ast.List, ast.Tuple)) and all(isinstance(e, ast.Constant) and isinstance(e.value, str) for e in a1.elts):
+                    fs = [e.value for e in a1.elts]
+                elif isinstance(a1, ast.Constant) and isinstance(a1.value, str):
+                    fs = a1.value.replace(",", " ").split()
+                if fs:
+                    fields.setdefault(c.targets[0].id, []).append(fs)
+    fields = {k: v[0] for k, v in fields.items() if len(v) == 1}
+    if not fields:
+        return
+
+    def ctor(e):
+        if isinstance(e, ast.Call) and isinstance(e.func, ast.Name) and e.func.id in fields and not any(isinstance(a, ast.Starred) for a in e.args) and not any(k.arg is None for k in e.keywords):
+            fs = fields[e.func.id]
+            vals = dict(zip(fs, e.args))
+            for k in e.keywords:
+                if k.arg not in fs or k.arg in vals:
+                    return None
+                vals[k.arg] = k.value
+            if set(vals) == set(fs):
+                # evaluation order: positional arguments, then keywords as written
+                order = fs[: len(e.args)] + [k.arg for k in e.keywords]
+                return [(f, vals[f]) for f in order]
+        return None
+
+    for t in trees:
+        for F in [n for n in ast.walk(t) if isinstance(n, (ast.FunctionDef, ast.AsyncFunctionDef))]:
+            # 1. loops over literal tuples of records
+            for owner in ast.walk(F):
+                for fld in ("body", "orelse", "finalbody"):
+                    blk = getattr(owner, fld, None)
+                    if not (isinstance(blk, list) and blk and isinstance(blk[0], ast.stmt)):
+                        continue
+                    i = 0
+                    while i < len(blk):
+                        s = blk[i]
+                        if (isinstance(s, ast.For) and not s.orelse and isinstance(s.target, ast.Name) and isinstance(s.iter, (ast.Tuple, ast.List)) and 1 <= len(s.iter.elts) <= 4 and all(ctor(e) is not None for e in s.iter.elts)
+                                and len(s.body) <= 8 and not any(isinstance(x, (ast.Break, ast.Continue, ast.FunctionDef, ast.Lambda, ast.Yield, ast.YieldFrom)) for b in s.body for x in ast.walk(b))
+                                and not any(isinstance(x, ast.Name) and x.id == s.target.id and isinstance(x.ctx, (ast.Store, ast.Del)) for b in s.body for x in ast.walk(b))):
+                            new = []
+                            for j, e in enumerate(s.iter.elts):
+                                nm = f"{s.target.id}__{j}"
+
+                                class _Rn(ast.NodeTransformer):
+                                    def visit_Name(self, n_):
+                                        if n_.id == s.target.id:
+                                            return ast.copy_location(ast.Name(id=nm, ctx=n_.ctx), n_)
+                                        return n_
+
+                                new.append(ast.copy_location(ast.Assign(targets=[ast.Name(id=nm, ctx=ast.Store())], value=e), s))
+                                new += [_Rn().visit(_copy.deepcopy(b)) for b in s.body]
+                            blk[i : i + 1] = [ast.fix_missing_locations(x) for x in new]
+                            i += len(new)
+                        else:
+                            i += 1
+            # 2. record locals
+            for owner in ast.walk(F):
+                for fld in ("body", "orelse", "finalbody"):
+                    blk = getattr(owner, fld, None)
+                    if not (isinstance(blk, list) and blk and isinstance(blk[0], ast.stmt)):
+                        continue
+                    for i, s in enumerate(list(blk)):
+                        if not (isinstance(s, ast.Assign) and len(s.targets) == 1 and isinstance(s.targets[0], ast.Name)):
+                            continue
+                        fv = ctor(s.value)
+                        r = s.targets[0].id
+                        if fv is None:
+                            continue
+                        if sum(1 for x in ast.walk(F) if isinstance(x, ast.Name) and x.id == r and isinstance(x.ctx, (ast.Store, ast.Del))) != 1:
+                            continue
+                        parents = {id(c_): p_ for p_ in ast.walk(F) for c_ in ast.iter_child_nodes(p_)}
+                        uses = [x for x in ast.walk(F) if isinstance(x, ast.Name) and x.id == r and isinstance(x.ctx, ast.Load)]
+                        if not all(isinstance(parents.get(id(u)), ast.Attribute) and parents[id(u)].value is u and isinstance(parents[id(u)].ctx, ast.Load) and parents[id(u)].attr in dict(fv) for u in uses):
+                            continue
+                        if any(isinstance(x, (ast.FunctionDef, ast.Lambda)) and any(u is y for u in uses for y in ast.walk(x)) and x is not F for x in ast.walk(F)):
+                            continue
+                        for u in uses:
+                            a = parents[id(u)]
+                            new = ast.copy_location(ast.Name(id=f"{r}__{a.attr}", ctx=ast.Load()), a)
+                            a.__class__ = ast.Name
+                            a.__dict__.clear()
+                            a.__dict__.update(new.__dict__)
+                        k = next(j for j, x in enumerate(blk) if x is s)
+                        blk[k : k + 1] = [ast.fix_missing_locations(ast.copy_location(ast.Assign(targets=[ast.Name(id=f"{r}__{f}", ctx=ast.Store())], value=v), s)) for f, v in fv]
+        ast.fix_missing_locations(t)
+
+
 def _flatten_mixins(trees):
     """A private helper base class (name starts with `_`, no rule names it, no bases of its own beyond object / ABC,
     no `__init__`, used as a base by exactly one class of the package and referenced nowhere else) is merged into that
@@ -1859,6 +1968,9 @@ class Program:
             _inline_expression_helpers([t[4] for t in parsed])
             _inline_index_properties([t[4] for t in parsed])
             _inline_local_closures([t[4] for t in parsed])
+            _inline_helpers([t[4] for t in parsed])
+            _inline_module_helpers([t[4] for t in parsed])
+            _unroll_record_objects([t[4] for t in parsed])
             _inline_helpers([t[4] for t in parsed])
         for modname, path, rel, source, tree, is_pkg in parsed:
             _normalise_syntax(tree)
